@@ -16,6 +16,17 @@ use std::time::{Duration, Instant};
 const KNOWN_WORDS: &[&str] = &["isready", "ucinewgame", "position", "go", "setoption", "quit", "uci"];
 
 pub fn garbage_line(rng: &mut Rng) -> String {
+    // option lines the engine cannot make anything of: the one option it has is switched on by
+    // `setoption name DebugLogLevel value Info` and by nothing else, so a truncated, reordered or
+    // unknown option line is a line it does not understand (and must leave its state alone)
+    if rng.chance(1, 16) {
+        return rng
+            .pick(&[
+                "setoption", "setoption name", "setoption value", "setoption name DebugLogLevel", "setoption name DebugLogLevel value", "setoption name value", "setoption   value   ", "setoption name Hash value 64",
+                "setoption name Ponder value true", "setoption name DebugLogLevel value Verbose", "setoption value name", "setoption name Clear Hash", "setoption name", "setoption name DebugLogLevel value",
+            ])
+            .to_string();
+    }
     let line = match rng.below(15) {
         14 => {
             // a command with a stray control character (or an invisible Unicode character) INSIDE
